@@ -237,4 +237,16 @@ REG.update({
         "assumptions": ["objects are those the node and the harness generate in runs; not all optional-field presence combinations (pure codec algebra over arbitrary inputs is outside this technique)",
                         "termini, pending-ETX bundles and p2p request/response frames are exercised only indirectly (through the dom/sub calls and the node's own database reads)", "RLP of ETXs in the ETX trie is covered by C04's queue check only"],
     },
+    "C03": {
+        "level": "exploration",
+        "tests": [{"pkg": "./chainsim", "run": "TestC03", "quick": 320, "thorough": 25000, "chunk": 20}],
+        "rule": S5_RULE + ("Monitor on every transaction the simulated clients sign (transfers, conversions with data, contract creations and calls with access lists; Qi transactions with 1..3 inputs): "
+                 "for every second Quai transaction each signed field in turn (nonce, gas, gas price, value, recipient, recipient present/absent, data appended/flipped, access-list address/key added, chain id) is changed with the signature kept, and each signature value is pushed to an edge "
+                 "(r=0, s=0, r=N, s=N, r=N+1, high-S with flipped v, v=2, v flipped, r+1): types.Sender must fail or return another address, and the node's live tx pool must not book the rewrite to the original sender; a sender cached under the chain's signer is not served to a signer of another chain id and survives that query. "
+                 "For every valid Qi transaction, a changed output denomination/address, a dropped output, changed data or chain id with the Schnorr (MuSig2) signature kept must fail the node's own ValidateQiTxInputs + ValidateQiTxOutputsAndSignature on the live UTXO set."),
+        "expect_probes": ["rewrite.nonce", "rewrite.chain-id", "rewrite.high-s", "rewrite.access-list-key", "rewrite.qi-output-denomination", "rewrite.qi-data", "reorg"],
+        "components": S5_COMPONENTS,
+        "assumptions": ["the per-field quantifier is enumerated over the field list of the current transaction types, not proved; elliptic-curve recovery maths is trusted",
+                        "rewritten transactions inside blocks (checkSig=false path through the pool sender cache) are covered by the C07 'add-foreign-transfer' / duplicate rows only"],
+    },
 })
